@@ -51,6 +51,9 @@ type Config struct {
 	NSigs     int    // -1 absent
 	NCosign   int
 	DupLockInPubkeys bool
+	// PubkeyOrder, when set, is the pubkeys tag as pool indexes in order (a permutation of the co-signers and, with
+	// DupLockInPubkeys, the lock key; possibly with one entry repeated anywhere in the list)
+	PubkeyOrder []int
 	Locktime  string // "absent" | "past" | "future"
 	NRefund   int
 	Sigflag   string // "absent" | "SIG_INPUTS" | "SIG_ALL"
@@ -68,6 +71,22 @@ func GenConfig(t *rapid.T, kind string) Config {
 	c.NSigs = rapid.SampledFrom([]int{-1, -1, 0, 1, 1, 2, 2, 3, 4}).Draw(t, "n_sigs")
 	c.NCosign = rapid.IntRange(0, 3).Draw(t, "n_cosigners")
 	c.DupLockInPubkeys = kind == "P2PK" && rapid.IntRange(0, 7).Draw(t, "dup_lock_key") == 0
+	if n := c.NCosign + b2i(c.DupLockInPubkeys); n >= 2 && rapid.IntRange(0, 2).Draw(t, "reorder_pubkeys") == 0 {
+		var base []int
+		for i := 0; i < c.NCosign; i++ {
+			base = append(base, Cosign0+i)
+		}
+		if c.DupLockInPubkeys {
+			base = append(base, LockKey)
+		}
+		order := rapid.Permutation(base).Draw(t, "pubkey_order")
+		if rapid.Bool().Draw(t, "repeat_pubkey") {
+			rep := order[rapid.IntRange(0, len(order)-1).Draw(t, "repeat_which")]
+			at := rapid.IntRange(0, len(order)).Draw(t, "repeat_at")
+			order = append(order[:at:at], append([]int{rep}, order[at:]...)...)
+		}
+		c.PubkeyOrder = order
+	}
 	c.Locktime = rapid.SampledFrom([]string{"absent", "absent", "past", "future"}).Draw(t, "locktime")
 	c.NRefund = rapid.IntRange(0, 2).Draw(t, "n_refund")
 	c.Sigflag = rapid.SampledFrom([]string{"absent", "absent", "SIG_INPUTS", "SIG_ALL"}).Draw(t, "sigflag")
@@ -82,6 +101,31 @@ func GenConfig(t *rapid.T, kind string) Config {
 	h := sha256.Sum256([]byte(fmt.Sprintf("nonce %d %d", n, rapid.Uint64().Draw(t, "nonce"))))
 	c.Nonce = hex.EncodeToString(h[:])
 	return c
+}
+
+// orderConsistent: PubkeyOrder is honoured only while it still lists exactly the configured keys (callers adjust
+// NCosign / DupLockInPubkeys after generation)
+func (c Config) orderConsistent() bool {
+	if c.PubkeyOrder == nil {
+		return false
+	}
+	seen := map[int]bool{}
+	for _, k := range c.PubkeyOrder {
+		seen[k] = true
+	}
+	for i := 0; i < c.NCosign; i++ {
+		if !seen[Cosign0+i] {
+			return false
+		}
+	}
+	return len(seen) == c.NCosign+b2i(c.DupLockInPubkeys) && seen[LockKey] == c.DupLockInPubkeys
+}
+
+func b2i(b bool) int {
+	if b {
+		return 1
+	}
+	return 0
 }
 
 func (c Config) Now() int64 { return time.Now().Unix() }
@@ -117,7 +161,13 @@ func (c Config) Secret() string {
 	if c.NSigs >= 0 {
 		tags = append(tags, []string{"n_sigs", strconv.Itoa(c.NSigs)})
 	}
-	if c.NCosign > 0 || c.DupLockInPubkeys {
+	if c.orderConsistent() {
+		pk := []string{"pubkeys"}
+		for _, i := range c.PubkeyOrder {
+			pk = append(pk, K(i).Hex)
+		}
+		tags = append(tags, pk)
+	} else if c.NCosign > 0 || c.DupLockInPubkeys {
 		pk := []string{"pubkeys"}
 		for i := 0; i < c.NCosign; i++ {
 			pk = append(pk, K(Cosign0+i).Hex)
@@ -309,7 +359,7 @@ func (c Config) AuthKeys() (keys []int, need int) {
 // threshold attempts - a subset of the authorised keys signing once, padded with further (different) valid
 // signatures by one of those keys up to around the threshold, in a drawn order.
 func GenWitnessElems(t *rapid.T, c Config, candidates []int, label string) ([]SigElem, string) {
-	mode := rapid.SampledFrom([]string{"random", "random", "threshold_attempt", "threshold_attempt", "pad_same_key", "pad_same_key", "refund_signed"}).Draw(t, label+"_mode")
+	mode := rapid.SampledFrom([]string{"random", "random", "threshold_attempt", "threshold_attempt", "pad_same_key", "pad_same_key", "one_short_padded", "one_short_padded", "refund_signed"}).Draw(t, label+"_mode")
 	auth, need := c.AuthKeys()
 	switch mode {
 	case "threshold_attempt", "pad_same_key":
@@ -333,6 +383,30 @@ func GenWitnessElems(t *rapid.T, c Config, candidates []int, label string) ([]Si
 			}
 		}
 		return out, mode
+	case "one_short_padded":
+		// one distinct signer short of the threshold, padded to exactly the threshold with a second (different)
+		// signature by a key that already signed - preferably one that is listed more than once
+		if need < 2 || need-1 > len(auth) {
+			return GenSigList(t, candidates, label), "random"
+		}
+		perm := rapid.Permutation(auth).Draw(t, label+"_perm")
+		if rep := c.RepeatedKeys(); len(rep) > 0 && rapid.IntRange(0, 3).Draw(t, label+"_use_repeated") > 0 {
+			r := rep[rapid.IntRange(0, len(rep)-1).Draw(t, label+"_repeated")]
+			for i, k := range perm {
+				if k == r {
+					perm[0], perm[i] = perm[i], perm[0]
+				}
+			}
+		}
+		var out []SigElem
+		for _, key := range perm[:need-1] {
+			out = append(out, SigElem{"valid", key})
+		}
+		out = append(out, SigElem{"valid2", perm[0]})
+		if rapid.Bool().Draw(t, label+"_shuffle") {
+			out = rapid.Permutation(out).Draw(t, label+"_order")
+		}
+		return out, mode
 	case "refund_signed":
 		var out []SigElem
 		n := rapid.IntRange(1, 2).Draw(t, label+"_nref")
@@ -342,4 +416,62 @@ func GenWitnessElems(t *rapid.T, c Config, candidates []int, label string) ([]Si
 		return out, mode
 	}
 	return GenSigList(t, candidates, label), "random"
+}
+
+// RepeatedKeys returns the pool indexes of keys that occur more than once in the authorised list (lock key
+// followed by the pubkeys tag).
+func (c Config) RepeatedKeys() []int {
+	var list []int
+	if c.Kind == "P2PK" {
+		list = append(list, LockKey)
+	}
+	if c.orderConsistent() {
+		list = append(list, c.PubkeyOrder...)
+	} else {
+		for i := 0; i < c.NCosign; i++ {
+			list = append(list, Cosign0+i)
+		}
+		if c.DupLockInPubkeys {
+			list = append(list, LockKey)
+		}
+	}
+	n := map[int]int{}
+	var out []int
+	for _, k := range list {
+		n[k]++
+		if n[k] == 2 {
+			out = append(out, k)
+		}
+	}
+	return out
+}
+
+// PubkeysClass classifies the shape of the authorised-key list (lock key followed by the pubkeys tag).
+func PubkeysClass(c Config) string {
+	if !c.orderConsistent() {
+		if c.DupLockInPubkeys {
+			if c.NCosign == 0 {
+				return "lock_key_repeated_adjacent"
+			}
+			return "lock_key_repeated_nonadjacent"
+		}
+		return ""
+	}
+	list := c.PubkeyOrder
+	if c.Kind == "P2PK" {
+		list = append([]int{LockKey}, list...)
+	}
+	last := map[int]int{}
+	out := "permuted"
+	for i, k := range list {
+		if j, ok := last[k]; ok {
+			if i-j == 1 && out != "repeat_nonadjacent" {
+				out = "repeat_adjacent"
+			} else if i-j > 1 {
+				out = "repeat_nonadjacent"
+			}
+		}
+		last[k] = i
+	}
+	return out
 }
